@@ -321,6 +321,10 @@ func (e *Engine) doReturn(fr *Frame, res Value) {
 	st := e.st
 	st.frames = st.frames[:len(st.frames)-1]
 	if len(st.frames) == 0 {
+		if !st.curGor.isMain {
+			// a goroutine finished: run someone else
+			e.goroutineDone()
+		}
 		return
 	}
 	parent := st.top()
@@ -332,8 +336,7 @@ func (e *Engine) doReturn(fr *Frame, res Value) {
 		return
 	}
 	if fr.isTaskRoot {
-		st.thread = fr.savedThread
-		return // parent re-executes the blocking instruction or continues vpRunTasks
+		panic(engineErr{"internal", "task root returned into a parent frame"})
 	}
 	if fr.isInit {
 		return
@@ -1069,6 +1072,7 @@ func (e *Engine) mapFind(m *MapV, key Value) int {
 }
 
 func (e *Engine) mapUpdate(m MapRef, k, v Value) {
+	e.recordAccess(Ptr{Obj: m.Obj}, true)
 	mv := e.st.obj(m.Obj).Val.(*MapV)
 	i := e.mapFind(mv, k)
 	o := e.st.writable(m.Obj)
@@ -1084,6 +1088,7 @@ func (e *Engine) mapDelete(m MapRef, k Value) {
 	if m.Obj == 0 {
 		return
 	}
+	e.recordAccess(Ptr{Obj: m.Obj}, true)
 	mv := e.st.obj(m.Obj).Val.(*MapV)
 	i := e.mapFind(mv, k)
 	if i < 0 {
@@ -1245,11 +1250,8 @@ func (e *Engine) recv(fr *Frame, in *ssa.UnOp, c ChanRef) {
 	}
 	ch := st.obj(c.Obj).Val.(*ChanV)
 	if len(ch.Buf) == 0 && !ch.Closed {
-		if len(st.tasks) > 0 {
-			e.runTask()
-			return // re-execute receive afterwards
-		}
-		e.blocked("receive on empty channel with no runnable sender")
+		e.blockCurrent("receive on empty channel with no runnable sender")
+		return // the receive is re-executed when this goroutine is scheduled again
 	}
 	et := in.X.Type().Underlying().(*types.Chan).Elem()
 	var v Value
@@ -1332,33 +1334,172 @@ func (e *Engine) selectInstr(fr *Frame, in *ssa.Select) {
 		fr.ip++
 		return
 	}
-	if len(st.tasks) > 0 {
-		e.runTask()
-		return
-	}
-	e.blocked("select with no ready case")
+	e.blockCurrent("select with no ready case")
 }
 
 func (e *Engine) goInstr(fr *Frame, in *ssa.Go) {
 	t := e.prepCall(fr, &in.Call)
-	e.st.tasks = append(e.st.tasks, &Task{fn: t.fn, args: t.args, iface: t.iface, meth: t.meth, site: e.where()})
-	e.st.ghost["go-stmts"]++
+	st := e.st
+	st.nextGor++
+	name := st.thread + "/go:" + siteFunc(e.where()) + "#" + fmt.Sprint(st.nextGor)
+	if st.spawns == nil {
+		st.spawns = map[string]SpawnInfo{}
+	}
+	st.spawns[name] = SpawnInfo{Parent: st.thread, Seq: st.accSeq}
+	task := &Task{fn: t.fn, args: t.args, iface: t.iface, meth: t.meth, site: e.where(), spawnSeq: st.accSeq, parent: st.thread}
+	st.others = append(st.others, &Gor{ID: st.nextGor, task: task, thread: name})
+	st.ghost["go-stmts"]++
 }
 
-// runTask starts the oldest pending task as a nested call on the current stack.
-func (e *Engine) runTask() {
-	st := e.st
-	t := st.tasks[0]
-	st.tasks = append([]*Task(nil), st.tasks[1:]...)
-	before := len(st.frames)
-	cur := st.top()
-	e.callValue(cur, nil, t.fn, t.iface, t.meth, nil, t.args, true)
-	if len(st.frames) > before {
-		nf := st.top()
-		nf.isTaskRoot = true
-		nf.savedThread = st.thread
-		st.thread = st.thread + "/go:" + t.site
+// ---- cooperative scheduler: goroutines switch only where the running one blocks, yields or ends ----
+
+func (e *Engine) runnable(g *Gor) bool {
+	if g.parked {
+		return false
 	}
+	if g.blocked {
+		return e.st.progress > g.blockedAt
+	}
+	return true
+}
+
+// switchTo parks the running goroutine's bookkeeping into st.others and resumes g.
+func (e *Engine) switchTo(idx int, keepCurrent bool) {
+	st := e.st
+	g := st.others[idx]
+	rest := append([]*Gor(nil), st.others[:idx]...)
+	rest = append(rest, st.others[idx+1:]...)
+	if keepCurrent {
+		cur := st.curGor
+		cur.frames = st.frames
+		cur.thread = st.thread
+		c := cur
+		rest = append(rest, &c)
+	}
+	st.others = rest
+	st.curGor = *g
+	st.curGor.blocked, st.curGor.yielding = false, false
+	st.thread = g.thread
+	st.frames = g.frames
+	st.taken = st.taken[:0]
+	if g.task != nil {
+		// first activation: build the root frame
+		t := g.task
+		st.curGor.task = nil
+		st.frames = []*Frame{{fn: nil}} // dummy base so that callValue has a current frame
+		base := st.frames[0]
+		base.regs = map[ssa.Value]Value{}
+		before := len(st.frames)
+		func() {
+			defer func() {
+				if r := recover(); r != nil {
+					if _, ok := r.(instrAbort); ok {
+						return
+					}
+					panic(r)
+				}
+			}()
+			e.callValue(base, nil, t.fn, t.iface, t.meth, nil, t.args, true)
+		}()
+		if len(st.frames) > before {
+			nf := st.frames[len(st.frames)-1]
+			nf.isTaskRoot = true
+			st.frames = []*Frame{nf}
+		} else if st.panicking != nil {
+			// panicked before any frame existed (nil func): crash of the goroutine
+			pi := st.panicking
+			_, m := e.sat(true)
+			e.violation("panic", "panic:"+pi.Kind+"@go-statement", pi.Msg, m)
+			panic(pathEnd{"panic"})
+		} else {
+			st.frames = nil
+			e.goroutineDone()
+		}
+	}
+}
+
+// pickNext returns the index of the next runnable goroutine (main preferred last so that tasks run
+// when main yields), or -1.
+func (e *Engine) pickNext() int {
+	st := e.st
+	for i, g := range st.others {
+		if !g.isMain && e.runnable(g) {
+			return i
+		}
+	}
+	for i, g := range st.others {
+		if g.isMain && (e.runnable(g) || g.yielding) {
+			return i
+		}
+	}
+	return -1
+}
+
+// blockCurrent: the running goroutine cannot proceed now. It will retry the same instruction when
+// another goroutine has made progress; if nobody can run, main is deadlocked.
+func (e *Engine) blockCurrent(why string) {
+	st := e.st
+	st.progress-- // the blocked attempt is not progress
+	st.curGor.blocked = true
+	st.curGor.blockedAt = st.progress
+	i := e.pickNext()
+	if i < 0 {
+		if st.curGor.isMain {
+			e.blocked(why)
+		}
+		// a task blocked with nothing else runnable and main already gone cannot happen (main ends the path)
+		e.blocked(why)
+	}
+	e.switchTo(i, true)
+}
+
+// parkCurrent: the running goroutine can never proceed (e.g. read on a connection nobody closes).
+func (e *Engine) parkCurrent(why string) {
+	st := e.st
+	if st.curGor.isMain {
+		e.blocked(why)
+	}
+	st.events = append(st.events, "parked:"+st.thread)
+	st.curGor.parked = true
+	i := e.pickNext()
+	if i < 0 {
+		e.blocked("all goroutines blocked: " + why)
+	}
+	e.switchTo(i, true)
+}
+
+func (e *Engine) goroutineDone() {
+	st := e.st
+	st.progress++
+	i := e.pickNext()
+	if i < 0 {
+		panic(engineErr{"internal", "no goroutine to resume after a task ended"})
+	}
+	e.switchTo(i, false)
+}
+
+// yieldMain: run the other goroutines until all of them are finished, blocked or parked.
+// Returns true when there is nothing left to run (the caller's instruction may complete).
+func (e *Engine) yieldMain() bool {
+	st := e.st
+	for i, g := range st.others {
+		if !g.isMain && e.runnable(g) {
+			st.curGor.yielding = true
+			e.switchTo(i, true)
+			return false
+		}
+	}
+	return true
+}
+
+func (e *Engine) unfinishedOthers() int {
+	n := 0
+	for _, g := range e.st.others {
+		if !g.isMain {
+			n++
+		}
+	}
+	return n
 }
 
 func (e *Engine) deferInstr(fr *Frame, in *ssa.Defer) {
@@ -1372,9 +1513,19 @@ func (e *Engine) recordAccess(p Ptr, write bool) {
 		return
 	}
 	o := st.heap[p.Obj]
-	tag := ""
+	tag, typ := "", ""
 	if o != nil {
 		tag = o.Tag
+		if o.Typ != nil {
+			typ = o.Typ.String()
+		}
 	}
-	st.access = append(st.access, AccessRec{Thread: st.thread, Obj: p.Obj, Path: fmt.Sprint(p.Path) + tag, Write: write, Locks: fmt.Sprint(st.heldLocks), Site: e.where()})
+	if o != nil && o.Typ != nil && len(p.Path) > 0 {
+		if stt, ok := o.Typ.Underlying().(*types.Struct); ok && p.Path[0] < stt.NumFields() {
+			typ += "." + stt.Field(p.Path[0]).Name()
+		}
+	}
+	st.accSeq++
+	st.access = append(st.access, AccessRec{Thread: st.thread, Obj: p.Obj, Path: fmt.Sprint(p.Path), Typ: typ, Tag: tag, Write: write,
+		Locks: append([]int(nil), st.heldLocks...), Site: e.where(), Seq: st.accSeq})
 }
